@@ -507,7 +507,7 @@ def no_error_after_wire_write(F, R):
                     continue
                 reg = b.reachable(r2[1].get(0, r2[2]), avoid=[r2[1].get(1, r2[2])])
             n += 1
-            errs = [x for x, j, s_ in agg_sites(b, r'^std::result::Result$', 'Err') if x in reg and s_['lhs']['l'] == 0]
+            errs = [x for x, j, s_ in agg_sites(b, r'^std::result::Result$', 'Err') if x in reg and s_['lhs']['l'] in b.ret_locals]
             R.ob('C08.validate-before-write', '%s|IoRef::encode-Ok|no-later-error' % b.path, not errs,
                  'after the packet has been written to the wire the function can still return an error (%s): the caller sees a failed send although the bytes are out' % (
                      ', '.join(sorted({err_variant(b, s_) for x, j, s_ in agg_sites(b, r'^std::result::Result$', 'Err') if x in errs})) or 'Err'), b.loc(errs[0]) if errs else None)
@@ -523,7 +523,7 @@ def owed_recorded_last(F, R):
     for ver in ('v3', 'v5'):
         b = F.one(r'^<%s::codec::codec::Codec as ntex_codec::Encoder>::encodev$' % ver)
         sets = [bi for bi, t, ap in calls_on_field(b, r'Cell::<T>::(set|replace)$', 'encoding_payload')]
-        errs = {bi for bi, j, s in agg_sites(b, r'^std::result::Result$', 'Err') if s['lhs']['l'] == 0 and not place_proj(s['lhs'])}
+        errs = {bi for bi, j, s in agg_sites(b, r'^std::result::Result$', 'Err') if s['lhs']['l'] in b.ret_locals and not place_proj(s['lhs'])}
         errs |= {bi for bi, t in b.calls_to(r'::from_residual$') if t['dest']['l'] == 0}
         for bi in sets:
             n += 1
